@@ -30,4 +30,17 @@ PROPS["C17"] = {
     "explanation": "state-machine model, invariants by induction over event lists",
 }
 
+PROPS["C18"] = {
+    "proof_files": ["Proofs/Wire.v", "Lib/Bytes.v"],
+    "gen_files": ["Gen/Consts.v"],
+    "corr": ["C18"],
+    "trusted_base": ["tie to the code: CORRESPONDENCE for Model/Wire.v (the real write*/read* functions are run on generated records, sequences, truncations and mutations; bytes and decoded values compared in coqc) + TRANSLATOR for the type codes, magic and limits (Gen/Consts.v)",
+                     "encoding/json is an oracle: the manifest JSON inside the control header is an opaque blob in the model; its value round trip is tested by the harness, not proved"],
+    "assumptions": ["streams deliver bytes in order (io.ReadFull semantics)", "field limits: paths accepted by validateRelPath, ids and error texts < 2^16 bytes, bitmaps and JSON < 2^32 bytes"],
+    "level_text": "Round-trip theorems for every control record, for sequences of records, for the control header and the data-frame header, over all values within the protocol's field limits and with arbitrary trailing bytes (so each decode consumes exactly what was written). The model is compared byte-for-byte with the real encoder/decoder.",
+    "level_note": "Trusted: Coq kernel, harness/shims. Modelled not verified: encoding/json (oracle), stream transport. JSON payload fidelity is tested only (partial).",
+    "technique": "Coq round-trip proofs over a byte-level codec model + differential test against the real write*/read* pairs",
+    "explanation": "codec model with parser combinators; dec (enc m ++ rest) = (m, rest)",
+}
+
 NOT_APPLICABLE = {}
